@@ -110,7 +110,8 @@ Proof.
   { apply Forall_forall. intros r Hr. apply in_map_iff in Hr. destruct Hr as [x [<- Hx]]. repeat split. cbn.
     pose proof (Forall_perm _ _ _ Pa (net_addrs_ok n)) as Ha. rewrite Forall_forall in Ha. apply Ha. exact Hx. }
   destruct (stages_probes st _ Ht F) as (E1 & E2 & E3). split; [|split; assumption].
-  rewrite E1, map_map. cbn [pair_of ip_req mk_req rip rport]. unfold denote_subnet.
+  assert (Em : map pair_of (map (fun x => ip_req 0 (inl x)) a) = map (fun x => (x, 0)) a) by (rewrite map_map; reflexivity).
+  rewrite E1, Em. unfold denote_subnet.
   rewrite (filter_map_comm (fun ap => kept st (fst ap)) (fun x => (x, 0)) a). cbn [fst].
   apply Permutation_map. apply Permutation_filter. exact Pa.
 Qed.
@@ -126,7 +127,9 @@ Proof.
   { apply Forall_forall. intros r Hr. apply in_map_iff in Hr. destruct Hr as [x [<- Hx]]. repeat split. cbn.
     rewrite Forall_forall in HA. apply HA. exact Hx. }
   destruct (stages_probes st _ Ht F) as (E1 & E2 & E3). split; [|split; assumption].
-  rewrite E1, map_map. cbn [pair_of ip_req mk_req rip rport]. unfold denote_file_addrs.
+  assert (Em : map pair_of (map (fun x => ip_req 0 (inl x)) (flat_map line_addr ls)) = map (fun x => (x, 0)) (flat_map line_addr ls))
+    by (rewrite map_map; reflexivity).
+  rewrite E1, Em. unfold denote_file_addrs.
   rewrite (filter_map_comm (fun ap => kept st (fst ap)) (fun x => (x, 0)) _). reflexivity.
 Qed.
 
